@@ -3,7 +3,7 @@
    assert_unreachable, le ge sle sge ne ceil32, select), tied to vyper/ir/compile_ir.py by exact output equality on
    seeded random trees; the opcode tables are regenerated from the source (GenUtils.v). *)
 From Coq Require Import ZArith List String Lia.
-From Verif Require Import Base.Word256 Base.PyInt C15.Syntax C15.GenUtils C15.Peephole C15.Lower C15.LowerSound C15.LowerFlow.
+From Verif Require Import Base.Word256 Base.PyInt C15.Syntax C15.GenUtils C15.Peephole C15.Lower C15.LowerSound C15.LowerFlow C15.FlowSound.
 Import ListNotations.
 Open Scope Z_scope.
 
@@ -70,3 +70,38 @@ Example height_balance_nonvacuous :
   flow_top (Node "repeat" [Var "i"; Lit 0; Node "calldataload" [Lit 0]; Lit 10; body]) = Some Dead /\
   flow_top (Node "repeat" [Var "i"; Lit 0; Lit 10; Lit 10; bad]) = None.
 Proof. split; vm_compute; reflexivity. Qed.
+
+(* What the height check means for execution (FlowSound.v): on a small-step machine over the emitted assembly (pc + stack
+   of values / label references; PUSHLABEL pushes a reference, JUMP / JUMPI continue at that label; every other opcode an
+   ARBITRARY stack function respecting its arity), in every reachable state of a lowered program the stack depth is exactly
+   base + the statically tracked height of that pc (base = 0 until the shared revert block is entered), and no
+   instruction -- in particular no DUPn / SWAPn computed from the lowerer's `height` -- reaches below the tracked frame. *)
+Theorem lowered_code_stack_depth :
+  forall (V : Type) (exec : string -> list (sv V) -> option (list (sv V))) (ofs : string -> Z -> sv V) (truthy : sv V -> bool),
+  (forall o stk stk' i k, exec o stk = Some stk' -> effect o = Some (i, k) ->
+     (i <= List.length stk /\ List.length stk' = List.length stk - i + k)%nat) ->
+  forall e code, lower_top e = Ok code -> wv false e ->
+  exists E,
+    (forall n pc stk base, run V exec ofs truthy E code n 0 [] 0 = Some (pc, stk, base) -> Inv V E code pc stk base) /\
+    (forall n pc stk base o i k, run V exec ofs truthy E code n 0 [] 0 = Some (pc, stk, base) ->
+       nth_error code pc = Some (Op o) -> effect o = Some (i, k) ->
+       exists h top, pre E code pc = Some (Live h top) /\ List.length stk = (base + h)%nat /\ (i <= h)%nat).
+Proof.
+  intros V exec ofs truthy AR e code H WV. destruct (lower_top_balanced e code H WV) as (E & F).
+  exists E. split.
+  - intros n pc stk base R. eapply (run_inv V exec ofs truthy AR E code (ex_intro _ _ F)); [apply inv_start | exact R].
+  - intros n pc stk base o i k R N Ef. eapply (no_underflow V exec ofs truthy AR E code (ex_intro _ _ F)); eauto.
+Qed.
+Print Assumptions lowered_code_stack_depth.
+(* the arity hypothesis is satisfiable: pop the operands, push as many results *)
+Example exec_arity_satisfiable :
+  exists exec : string -> list (sv Z) -> option (list (sv Z)),
+  forall o stk stk' i k, exec o stk = Some stk' -> effect o = Some (i, k) ->
+    (i <= List.length stk /\ List.length stk' = List.length stk - i + k)%nat.
+Proof.
+  exists (fun o stk => match effect o with
+                       | Some (i, k) => if Nat.leb i (List.length stk) then Some (repeat (SV Z 0) k ++ skipn i stk)%list else None
+                       | None => None end).
+  intros o stk stk' i k H Ef. rewrite Ef in H. destruct (Nat.leb i (List.length stk)) eqn:L; [|discriminate].
+  apply Nat.leb_le in L. inversion H; subst. split; [exact L|]. rewrite app_length, repeat_length, skipn_length. lia.
+Qed.
